@@ -403,6 +403,52 @@ def rule_alignment(chk):
                detail_bad='the permutation must be applied to every property with its stride', detail_ok='for every property: c_align_array(index_array, stride)')
 
 
+def rule_activation(chk):
+    """the updaters only act in the stages listed in active_stages, and the manager starts with none: every family's get_stepper must switch the
+    stages on whenever it hands out steppers (on every path, also when a zone list is empty); an Info object without an explicit updater class
+    gets the updater of its own kind"""
+    from verif_static import emit as EM, absint as AI
+    n = 0
+    for fam in FAMILIES:
+        rel = 'pysph/sph/bc/%s/simple_inlet_outlet.py' % fam
+        t = M.py(rel)
+        for cls in [c for c in t.body if isinstance(c, ast.ClassDef)]:
+            gs = M.methods(cls).get('get_stepper')
+            if gs is None:
+                continue
+            g = C.build_cfg(gs)
+            stores = [x.id for x in g.nodes if x.ast is not None and isinstance(x.ast, ast.Assign) and isinstance(x.ast.targets[0], ast.Subscript)
+                      and compact(x.ast.targets[0].value) == 'steppers']
+            act = [x.id for x in g.nodes if x.ast is not None and isinstance(x.ast, ast.Assign) and compact(x.ast.targets[0]) == 'self.active_stages'
+                   and isinstance(x.ast.value, (ast.List, ast.Tuple)) and x.ast.value.elts]
+            n += 1
+            bad = [s_ for s_ in stores if not (any(g.dominates(a, s_) for a in act) or g.must_pass(s_, g.exit, act))]
+            chk.decide(bool(stores) and not bad, 'updaters-activated', '%s:%s.get_stepper' % (fam, cls.name), node=g.nodes[bad[0]].ast if bad else gs, file=rel,
+                       func='%s.get_stepper' % cls.name,
+                       detail_bad='a path hands out an inlet/outlet stepper without setting self.active_stages to a non-empty list (e.g. when one of the zone lists is empty): '
+                                  'Inlet/Outlet.update then never acts and particles are neither released nor recycled',
+                       detail_ok='active_stages set on every path that hands out steppers')
+    chk.floor('families with get_stepper', n, 5)
+    # defaults of the Info objects, by interpreting their constructors
+    try:
+        it = EM.interpreter()
+        for cname, want in (('InletInfo', 'InletBase'), ('OutletInfo', 'OutletBase')):
+            obj = EM.instance(it, IOM, cname)
+            EM.call(it, obj, '__init__', 'zone', [1.0, 0.0, 0.0], [0.0, 0.0, 0.0])
+            got = obj.attrs.get('update_cls')
+            gname = got.node.name if isinstance(got, AI.ClassRef) else AI.key_of(got) if got is not None else None
+            chk.decide(gname == want, 'updaters-activated', '%s:default-updater' % cname, node=M.find_class(M.py(IOM), cname), file=IOM, func=cname + '.__init__',
+                       detail_bad='%s(...) without update_cls gets the updater %s; its zone needs %s (an outlet driven by the inlet updater never takes particles from the fluid nor deletes '
+                                  'those that left)' % (cname, gname, want), detail_ok='defaults to %s' % want)
+            obj2 = EM.instance(it, IOM, cname)
+            marker = EM.mock(name='UserUpdater')
+            EM.call(it, obj2, '__init__', 'zone', [1.0, 0.0, 0.0], [0.0, 0.0, 0.0], update_cls=marker)
+            chk.decide(obj2.attrs.get('update_cls') is marker, 'updaters-activated', '%s:explicit-updater-kept' % cname, node=M.find_class(M.py(IOM), cname), file=IOM,
+                       func=cname + '.__init__', detail_bad='an explicitly given update_cls is replaced', detail_ok='explicit update_cls kept')
+    except (AI.Unsupported, AI.Raised) as e:
+        chk.undecided('updaters-activated', 'info-defaults', file=IOM, func='InletInfo.__init__', line=0, detail='constructor not interpretable: %s' % e)
+
+
 def main(chk):
     chk.explanation = ('For every update() of the inlet/outlet classes (the two bases and every override in the five families): zone ids are '
                        'refreshed before they are read (dominance); inlet: the set with ioid == 0 is copied inlet -> fluid exactly once and that '
@@ -425,6 +471,7 @@ def main(chk):
     rule_families(chk, ci)
     rule_alignment(chk)
     rule_zone_length(chk)
+    rule_activation(chk)
     chk.assume('exactly-once over arbitrary runs and velocity fields (particles crossing and returning within a step) is not decided')
     chk.assume('ParticleArray.extract_particles / remove_particles copy and delete whole particles (C06)')
 
